@@ -18,12 +18,12 @@ import (
 
 // EngReply is a reply the scripted driver hands to the engine: DelayUs after probe OnTTL was sent.
 type EngReply struct {
-	OnTTL   int    `json:"on_ttl"`   // the send that triggers it
-	TTL     int    `json:"ttl"`      // TTL the driver reports (free driver: any value)
+	OnTTL   int    `json:"on_ttl"` // the send that triggers it
+	TTL     int    `json:"ttl"`    // TTL the driver reports (free driver: any value)
 	Dest    bool   `json:"dest"`
 	DelayUs int64  `json:"delay_us"`
-	IP      int    `json:"ip"`   // responder index
-	Err     string `json:"err"`  // "" | bad | nopkt | fatal | nil (nil response, nil error)
+	IP      int    `json:"ip"`  // responder index
+	Err     string `json:"err"` // "" | bad | nopkt | fatal | nil (nil response, nil error)
 }
 
 // EngineScript drives common.TracerouteParallel / TracerouteSerial with a scripted TracerouteDriver.
